@@ -59,6 +59,7 @@ class Spec(PropSpec):
             n *= 2
         cases = [F.gen_direct(ctx.rng) for _ in range(n)]
         cases += [F.gen_sim(ctx.rng) for _ in range(n // 4)]
+        cases += [F.gen_sim_reaper(ctx.rng) for _ in range(n // 8)]
         cases += [F.gen_dup(ctx.rng) for _ in range(n // 8)]
         cases += [F.gen_cache(ctx.rng) for _ in range(n // 5)]
         cases += [F.gen_capacity(ctx.rng) for _ in range(n // 6)]
